@@ -16,7 +16,7 @@ pub struct Enumerator {
     list_memo: HashMap<(usize, Cx), Vec<Vec<Stmt>>>,
 }
 
-const BIN: [Op; 5] = [Op::Add, Op::Subtract, Op::Lt, Op::Eq, Op::And];
+const BIN: [Op; 9] = [Op::Add, Op::Subtract, Op::Lt, Op::Lte, Op::Gt, Op::Gte, Op::Eq, Op::Neq, Op::And];
 
 impl Enumerator {
     pub fn new() -> Self {
